@@ -82,3 +82,28 @@ def payload(x):
 
 def exc_name(r):
     return type(r[1]).__name__ if r[0] == "raise" else None
+
+
+def band(*terms, tol=1e-6):
+    """rounding band relative to the magnitudes of the given operands: tol * sum |t| (polymorphic).
+    Use it as `extra=` for sums/differences: a result that cancels to ~0 is only accurate relative to its operands,
+    and unyt deliberately treats units whose scales agree to 1e-9 as the same unit."""
+    tot = 0
+    for t in terms:
+        tot = tot + vabs(t)
+    return tot * float(tol)
+
+
+def eqmath(a, b, tol=1e-9):
+    """exact equality in symbolic mode (real arithmetic), `close` with a float tolerance in concrete mode.
+    For discontinuous operations (floor, mod, comparisons) where a tolerance band is meaningless. A model that exists
+    only because of a sub-tolerance deviation does not reproduce and is reported as inconclusive, never as a violation."""
+    if isinstance(a, SymReal) or isinstance(b, SymReal):
+        return exact_eq(a, b)
+    return close(a, b, tol=Fraction(tol).limit_denominator(10**15))
+
+
+def distinct_scales(ctx, s1, s2, ratio=1e-3):
+    """assume two symbolic scales are either exactly equal or differ by more than `ratio` relative: keeps harnesses
+    out of unyt's deliberate 'same unit up to 1e-9' band where discontinuous operations legitimately differ"""
+    ctx.assume(Or(exact_eq(s1, s2), s1 > s2 * (1 + ratio), s2 > s1 * (1 + ratio)))
